@@ -247,6 +247,10 @@ Definition elc_loop (short long : arr) (d : dynHdr) (codeListLen : N)
               (maxLen0, [li]) in
           let temp := frev tempRev in
           let grp := shl32 1 (maxLen - 12) in
+          (* clear the group first (fix 93d504a); x reaching len(longCodeLookup) = 1264 panics *)
+          if 1264 <? lcl + grp then (short, long, huff, lcl, true)
+          else
+          let long := forN lcl (lcl + grp) (fun x t => aset t x 0) long in
           let '(long, huff, pan) :=
             fold_left (fun (a : arr * arr * bool) (sym1Index : N) =>
               let '(long, huff, pan) := a in
@@ -269,8 +273,9 @@ Lemma encodeLongCodes_eq : forall short long d cll,
   let '(s, l, h, _, p) := elc_loop short long d cll in (s, l, h, p).
 Proof. reflexivity. Qed.
 
-(* "the long-code groups of this literal/length code fit longCodeLookup[1264]": the total
-   longCodeLookupLength reached by encodeLongCodes is at most 1264 *)
+(* "the long-code groups of this literal/length code fit longCodeLookup[1264]": encodeLongCodes
+   does not report an index out of range (its explicit check `1264 <? lcl + grp` before clearing a
+   group, the fill loop, the codeList index) *)
 Definition long_groups_fit (d : dynHdr) : Prop :=
   forall short long,
-    let '(_, _, _, lcl, _) := elc_loop short long d (aget (litCount d) 22) in lcl <= 1264.
+    let '(_, _, _, _, pan) := elc_loop short long d (aget (litCount d) 22) in pan = false.
